@@ -82,6 +82,8 @@ fn run_csend(ver: u32, seed: u64, sizes: &[usize], n_pings: usize) -> Option<CsR
 					if h.send(m).is_err() {
 						errs += 1;
 					}
+					// give the other senders a chance: more interleaving in the stream
+					std::thread::yield_now();
 				}
 				errs
 			})
@@ -396,6 +398,585 @@ pub fn handshake_timeouts(cx: &mut Ctx) {
 				}
 				cx.stat(&r.stat);
 				cx.out.line(&r.line, &r.res);
+			}
+		}
+	}
+}
+
+// ---------------------------------------------------------------------------------------------------
+// increment 2: several threads calling `Peer::send_*` on ONE real Peer (Mutex<ConnHandle>, TrackingAdapter
+// de-dup), and the send channel overflowing under concurrent senders while the writer is stalled
+
+fn mk_adapter(work: &std::path::Path, rng: &mut Rng) -> Arc<glue::GlueAdapter> {
+	Arc::new(glue::GlueAdapter {
+		log: Mutex::new(vec![]),
+		banned: std::sync::atomic::AtomicBool::new(false),
+		ready: std::sync::atomic::AtomicBool::new(false),
+		td: 1_000_000 + rng.below(1 << 30),
+		height: 1 + rng.below(1 << 20),
+		block: Mutex::new(None),
+		tx: Mutex::new(None),
+		peers: vec![],
+		work: work.to_path_buf(),
+		arch_hdr: Mutex::new(None),
+		arch_data: Mutex::new(None),
+		segs: Mutex::new(None),
+		fail: Mutex::new(None),
+	})
+}
+
+/// a real `Peer::accept` behind a real Hand / Shake; the raw socket of the remote
+fn mk_peer(remote_ver: u32, ad: Arc<glue::GlueAdapter>, nonce: u64) -> Option<(Peer, TcpStream)> {
+	let g = Hash::from_vec(&[7u8; 32]);
+	let listener = TcpListener::bind("127.0.0.1:0").ok()?;
+	let laddr = listener.local_addr().ok()?;
+	let mut client = TcpStream::connect(laddr).ok()?;
+	client.set_nodelay(true).ok()?;
+	let (server, _) = listener.accept().ok()?;
+	let t = std::thread::spawn(move || {
+		global::set_local_chain_type(ChainTypes::AutomatedTesting);
+		let hs = Handshake::new(g, P2PConfig::default());
+		Peer::accept(server, Capabilities::default(), Difficulty::from_num(9), &hs, ad).ok()
+	});
+	let hand = Hand {
+		version: ProtocolVersion(remote_ver),
+		capabilities: Capabilities::default(),
+		nonce,
+		genesis: g,
+		total_difficulty: Difficulty::from_num(5),
+		sender_addr: PeerAddr("127.0.0.1:3414".parse().unwrap()),
+		receiver_addr: PeerAddr(laddr),
+		user_agent: "verif/psend".to_string(),
+	};
+	client.write_all(&wire(&Msg::new(Type::Hand, hand, ProtocolVersion(1)).unwrap())).ok()?;
+	// the Shake
+	let _ = client.set_read_timeout(Some(Duration::from_secs(30)));
+	let mut head = [0u8; 11];
+	client.read_exact(&mut head).ok()?;
+	let mut l = [0u8; 8];
+	l.copy_from_slice(&head[3..11]);
+	let mut body = vec![0u8; (u64::from_be_bytes(l) as usize).min(1 << 16)];
+	client.read_exact(&mut body).ok()?;
+	let peer = t.join().ok()??;
+	Some((peer, client))
+}
+
+enum PSend {
+	Ping(u64, u64),
+	Kernel(Hash),
+	HeaderReq(Vec<Hash>),
+	PeerReq(u32),
+	TxReq(Hash),
+}
+
+struct PsRes {
+	ver: u32,
+	lists: Vec<Vec<Vec<u8>>>,
+	stream: Vec<u8>,
+	problems: Vec<String>,
+	suppressed: usize,
+}
+
+fn run_psend(remote_ver: u32, seed: u64, work: std::path::PathBuf, k: usize, per: usize) -> Option<PsRes> {
+	let mut rng = Rng::new(seed);
+	let ver = remote_ver.min(1000);
+	let ad = mk_adapter(&work, &mut rng);
+	let (peer, mut sock) = mk_peer(remote_ver, ad.clone(), rng.next())?;
+	let peer = Arc::new(peer);
+	// hashes the remote has shown us: remembered by the TrackingAdapter, never sent back
+	let known: Vec<Hash> = (0..6).map(|_| hash32(&mut rng)).collect();
+	for h in &known {
+		sock.write_all(&frame_bytes(Type::TransactionKernel, h, ver)).ok()?;
+	}
+	// logical wait: the adapter has seen all of them
+	let deadline = Instant::now() + Duration::from_secs(60);
+	while ad.log.lock().unwrap().len() < known.len() && Instant::now() < deadline {
+		std::thread::sleep(Duration::from_millis(5));
+	}
+	let mut plans: Vec<Vec<PSend>> = vec![];
+	let mut lists: Vec<Vec<Vec<u8>>> = vec![];
+	let mut want_ret: Vec<Vec<Option<bool>>> = vec![];
+	let mut suppressed = 0;
+	for i in 0..k {
+		let (mut pl, mut fl, mut wr) = (vec![], vec![], vec![]);
+		for j in 0..per {
+			match rng.below(6) {
+				0 => {
+					let (td, h) = (rng.below(1 << 50), (i * 1000 + j) as u64);
+					fl.push(frame_bytes(Type::Ping, &Ping { total_difficulty: Difficulty::from_num(td), height: h }, ver));
+					pl.push(PSend::Ping(td, h));
+					wr.push(None);
+				}
+				1 => {
+					// a hash the peer showed us: every thread that tries must be told `false`, nothing goes out
+					let h = *rng.pick(&known);
+					pl.push(PSend::Kernel(h));
+					wr.push(Some(false));
+					suppressed += 1;
+				}
+				2 => {
+					let h = hash32(&mut rng);
+					fl.push(frame_bytes(Type::TransactionKernel, &h, ver));
+					pl.push(PSend::Kernel(h));
+					wr.push(Some(true));
+				}
+				3 => {
+					let hs: Vec<Hash> = (0..1 + rng.below(20)).map(|_| hash32(&mut rng)).collect();
+					fl.push(frame_bytes(Type::GetHeaders, &Locator { hashes: hs.clone() }, ver));
+					pl.push(PSend::HeaderReq(hs));
+					wr.push(None);
+				}
+				4 => {
+					let c = rng.below(128) as u32;
+					fl.push(frame_bytes(Type::GetPeerAddrs, &GetPeerAddrs { capabilities: Capabilities::from_bits_truncate(c) }, ver));
+					pl.push(PSend::PeerReq(c));
+					wr.push(None);
+				}
+				_ => {
+					let h = hash32(&mut rng);
+					fl.push(frame_bytes(Type::GetTransaction, &h, ver));
+					pl.push(PSend::TxReq(h));
+					wr.push(None);
+				}
+			}
+		}
+		plans.push(pl);
+		lists.push(fl);
+		want_ret.push(wr);
+	}
+	// Pings of the remote: the Pongs travel through the same channel
+	let n_pings = 4;
+	let mut pongs = vec![];
+	let mut pings = vec![];
+	for j in 0..n_pings {
+		pings.push(frame_bytes(Type::Ping, &Ping { total_difficulty: Difficulty::from_num(rng.below(1 << 50)), height: 900_000 + j }, ver));
+		pongs.push(frame_bytes(Type::Pong, &Pong { total_difficulty: Difficulty::from_num(ad.td), height: ad.height }, ver));
+	}
+	lists.push(pongs);
+	let total: usize = lists.iter().map(|l| l.iter().map(|f| f.len()).sum::<usize>()).sum();
+	let barrier = Arc::new(Barrier::new(k + 1));
+	let handles: Vec<_> = plans
+		.into_iter()
+		.zip(want_ret.into_iter())
+		.enumerate()
+		.map(|(i, (pl, wr))| {
+			let (p, b) = (peer.clone(), barrier.clone());
+			std::thread::spawn(move || {
+				b.wait();
+				let mut probs = vec![];
+				for (j, (s, w)) in pl.into_iter().zip(wr.into_iter()).enumerate() {
+					let r: Result<Option<bool>, String> = match s {
+						PSend::Ping(td, h) => p.send_ping(Difficulty::from_num(td), h).map(|_| None).map_err(|e| err_name(&e)),
+						PSend::Kernel(h) => p.send_tx_kernel_hash(h).map(Some).map_err(|e| err_name(&e)),
+						PSend::HeaderReq(hs) => p.send_header_request(hs).map(|_| None).map_err(|e| err_name(&e)),
+						PSend::PeerReq(c) => p.send_peer_request(Capabilities::from_bits_truncate(c)).map(|_| None).map_err(|e| err_name(&e)),
+						PSend::TxReq(h) => p.send_tx_request(h).map(|_| None).map_err(|e| err_name(&e)),
+					};
+					if r != Ok(w) {
+						probs.push(format!("thread {} call {}: returned {:?}, expected {:?}", i, j, r, w));
+					}
+				}
+				probs
+			})
+		})
+		.collect();
+	barrier.wait();
+	for p in &pings {
+		let _ = sock.write_all(p);
+	}
+	let mut stream = vec![0u8; total];
+	let _ = sock.set_read_timeout(Some(Duration::from_secs(120)));
+	let mut got = 0;
+	while got < total {
+		match sock.read(&mut stream[got..]) {
+			Ok(0) | Err(_) => break,
+			Ok(n) => got += n,
+		}
+	}
+	stream.truncate(got);
+	let mut problems: Vec<String> = vec![];
+	let _ = sock.set_read_timeout(Some(Duration::from_millis(400)));
+	let mut extra = [0u8; 4096];
+	if got == total {
+		if let Ok(n) = sock.read(&mut extra) {
+			if n > 0 {
+				problems.push(format!("{} bytes behind the expected stream", n));
+				stream.extend_from_slice(&extra[..n]);
+			}
+		}
+	}
+	for h in handles {
+		problems.extend(h.join().unwrap_or_else(|_| vec!["sender thread panicked".to_string()]));
+	}
+	if !peer.is_connected() {
+		problems.push("Peer::is_connected() is false after the conversation".to_string());
+	}
+	peer.stop();
+	let _ = sock.shutdown(Shutdown::Both);
+	Some(PsRes { ver, lists, stream, problems, suppressed })
+}
+
+pub fn peer_concurrent(cx: &mut Ctx, work: &std::path::Path) {
+	let mut plans: Vec<(u32, usize, usize)> = vec![(1000, 3, 12), (2, 6, 6), (1, 2, 20)];
+	if cx.thorough {
+		plans.extend_from_slice(&[(3, 10, 8), (1000, 16, 5), (1001, 4, 22), (2, 30, 3)]);
+	}
+	let handles: Vec<_> = plans
+		.iter()
+		.enumerate()
+		.map(|(i, (rv, k, per))| {
+			let (rv, k, per, seed, w) = (*rv, *k, *per, cx.rng.next(), work.join(format!("psend-{}", i)));
+			std::thread::spawn(move || {
+				global::set_local_chain_type(ChainTypes::AutomatedTesting);
+				let _ = std::fs::create_dir_all(&w);
+				run_psend(rv, seed, w, k, per)
+			})
+		})
+		.collect();
+	for (h, (rv, k, per)) in handles.into_iter().zip(plans.iter()) {
+		match h.join().ok().flatten() {
+			None => {
+				cx.fails += 1;
+				cx.out.raw("#ORACLE-FAIL C19 psend: the Peer could not be set up");
+			}
+			Some(r) => {
+				let merged = is_merge(&r.lists, &r.stream);
+				if let Ok(sw) = &merged {
+					cx.stat(&format!("psend: {} threads on one Peer, stream switches sender {} times, {} suppressed sends", k, sw, r.suppressed));
+				}
+				let verdict = match merged {
+					Ok(_) if r.problems.is_empty() => "merge".to_string(),
+					Ok(_) => format!("merge-but:{}", r.problems.join("/").replace(' ', "_")),
+					Err(e) => format!("broken:{}", e.replace(' ', "_")),
+				};
+				if verdict != "merge" {
+					cx.fails += 1;
+					cx.out.raw(&format!(
+						"#ORACLE-FAIL C19 concurrent Peer::send_* on one Peer ({} threads x {} calls, remote version {}): {}",
+						k, per, rv, verdict
+					));
+				}
+				let lists_txt: Vec<String> = r.lists.iter().map(|l| hex_list(l)).collect();
+				cx.out.line(&format!("codec csend {} {} {} {}", r.ver, r.lists.len(), lists_txt.join(" "), hex(&r.stream)), &verdict);
+			}
+		}
+	}
+}
+
+struct OvRes {
+	ver: u32,
+	lists: Vec<Vec<Vec<u8>>>,
+	stream: Vec<u8>,
+	send_errs: usize,
+}
+
+/// the writer thread is parked on the tracker lock (a logical barrier, as in `chan fill`); k threads offer more
+/// than SEND_CHANNEL_CAP messages through `ConnHandle::send`; then the lock is released and the stream read
+fn run_overflow(ver: u32, seed: u64, k: usize, per: usize) -> Option<OvRes> {
+	let mut rng = Rng::new(seed);
+	let listener = TcpListener::bind("127.0.0.1:0").ok()?;
+	let a_sock = TcpStream::connect(listener.local_addr().ok()?).ok()?;
+	let (mut b_sock, _) = listener.accept().ok()?;
+	let tr = Arc::new(Tracker::new());
+	let seen = Arc::new(Mutex::new(ext::Seen2::default()));
+	let (ha, stop) = listen(a_sock, ProtocolVersion(ver), tr.clone(), ext::Recorder2 { ver, work: std::path::PathBuf::new(), id: 0, scripted: false, seen }).ok()?;
+	let mut lists: Vec<Vec<Vec<u8>>> = vec![];
+	let mut msgs: Vec<Vec<Msg>> = vec![];
+	for i in 0..k {
+		let (mut fl, mut ml) = (vec![], vec![]);
+		for j in 0..per {
+			let (t, body): (Type, Vec<u8>) = match rng.below(3) {
+				0 => (Type::Ping, sv(&Ping { total_difficulty: Difficulty::from_num(rng.below(1 << 50)), height: (i * 1000 + j) as u64 }, ver)),
+				1 => (Type::GetHeaders, sv(&Locator { hashes: (0..1 + rng.below(20)).map(|_| hash32(&mut rng)).collect() }, ver)),
+				_ => (Type::GetBlock, sv(&hash32(&mut rng), ver)),
+			};
+			let m = Msg::new(t, ext::RawBody(body), ProtocolVersion(ver)).ok()?;
+			fl.push(wire(&m));
+			ml.push(m);
+		}
+		lists.push(fl);
+		msgs.push(ml);
+	}
+	let send_errs;
+	{
+		let guard = tr.sent_bytes.write();
+		let barrier = Arc::new(Barrier::new(k));
+		let handles: Vec<_> = msgs
+			.into_iter()
+			.map(|ml| {
+				let (h, b) = (ha.clone(), barrier.clone());
+				std::thread::spawn(move || {
+					b.wait();
+					ml.into_iter().filter(|_| true).map(|m| if h.send(m).is_err() { 1 } else { 0 }).sum::<usize>()
+				})
+			})
+			.collect();
+		send_errs = handles.into_iter().map(|h| h.join().unwrap_or(1)).sum();
+		// every send has returned: whatever was not accepted has been dropped. Only now may the writer run.
+		drop(guard);
+	}
+	// the stream: read until it stays quiet (the writer paces 150 ms per message; 2 s of silence = done)
+	// logical wait until SEND_CHANNEL_CAP whole frames are there (what the channel held must arrive), then a
+	// look for more (the one the parked writer may have had in its hands, or anything that should not come)
+	let cap = grin_p2p::SEND_CHANNEL_CAP;
+	let whole_frames = |s: &[u8]| {
+		let (mut p, mut n) = (0usize, 0usize);
+		while s.len() >= p + 11 {
+			let mut l = [0u8; 8];
+			l.copy_from_slice(&s[p + 3..p + 11]);
+			let len = u64::from_be_bytes(l) as usize;
+			if s.len() < p + 11 + len {
+				break;
+			}
+			p += 11 + len;
+			n += 1;
+		}
+		n
+	};
+	let mut stream = vec![];
+	let mut buf = [0u8; 8192];
+	let deadline = Instant::now() + Duration::from_secs(180);
+	loop {
+		let enough = whole_frames(&stream) >= cap;
+		let _ = b_sock.set_read_timeout(Some(if enough { Duration::from_millis(3_000) } else { Duration::from_secs(60) }));
+		match b_sock.read(&mut buf) {
+			Ok(0) => break,
+			Ok(n) => stream.extend_from_slice(&buf[..n]),
+			Err(_) => break,
+		}
+		if Instant::now() > deadline {
+			break;
+		}
+	}
+	stop.stop();
+	let _ = b_sock.shutdown(Shutdown::Both);
+	Some(OvRes { ver, lists, stream, send_errs })
+}
+
+/// whole frames; per sender a PREFIX of its list (with the writer stalled the channel never frees a slot);
+/// the number of frames
+fn is_prefix_merge(lists: &[Vec<Vec<u8>>], stream: &[u8]) -> Result<usize, String> {
+	let mut p = 0;
+	let mut next = vec![0usize; lists.len()];
+	let mut n = 0;
+	while p < stream.len() {
+		if stream.len() - p < 11 {
+			return Err(format!("{} stray bytes at offset {}", stream.len() - p, p));
+		}
+		let mut l = [0u8; 8];
+		l.copy_from_slice(&stream[p + 3..p + 11]);
+		let len = u64::from_be_bytes(l) as usize;
+		if len > stream.len() - p - 11 {
+			return Err(format!("half a frame at offset {}: {} bytes announced, {} there", p, len, stream.len() - p - 11));
+		}
+		let f = &stream[p..p + 11 + len];
+		let owner = lists.iter().enumerate().find(|(i, l)| next[*i] < l.len() && &l[next[*i]][..] == f).map(|(i, _)| i);
+		match owner {
+			Some(i) => next[i] += 1,
+			None => return Err(format!("frame {} ({} bytes, type {}) is not the next frame of any sender (a later message of a sender arrived although an earlier one was dropped, or a foreign frame)", n, f.len(), f[2])),
+		}
+		n += 1;
+		p += 11 + len;
+	}
+	Ok(n)
+}
+
+pub fn channel_overflow(cx: &mut Ctx) {
+	let cap = grin_p2p::SEND_CHANNEL_CAP;
+	let plans: Vec<(u32, usize, usize)> = if cx.thorough { vec![(1000, 4, 40), (2, 8, 25), (1, 2, 101), (3, 30, 5)] } else { vec![(1000, 4, 40)] };
+	let handles: Vec<_> = plans
+		.iter()
+		.map(|(ver, k, per)| {
+			let (ver, k, per, seed) = (*ver, *k, *per, cx.rng.next());
+			std::thread::spawn(move || {
+				global::set_local_chain_type(ChainTypes::AutomatedTesting);
+				run_overflow(ver, seed, k, per)
+			})
+		})
+		.collect();
+	for (h, (_, k, per)) in handles.into_iter().zip(plans.iter()) {
+		match h.join().ok().flatten() {
+			None => {
+				cx.fails += 1;
+				cx.out.raw("#ORACLE-FAIL C19 overflow: the connection could not be set up");
+			}
+			Some(r) => {
+				let verdict = match is_prefix_merge(&r.lists, &r.stream) {
+					// `cap` in the channel, possibly one more in the hands of the parked writer
+					Ok(n) if (n == cap || n == cap + 1) && r.send_errs == 0 => "prefixes".to_string(),
+					Ok(n) => format!("prefixes-but:frames:{}:send-errors:{}", n, r.send_errs),
+					Err(e) => format!("broken:{}", e.replace(' ', "_")),
+				};
+				if verdict != "prefixes" {
+					cx.fails += 1;
+					cx.out.raw(&format!(
+						"#ORACLE-FAIL C19 send channel overflowing under {} concurrent senders x {} messages with the writer stalled (SEND_CHANNEL_CAP = {}): {}",
+						k, per, cap, verdict
+					));
+				}
+				cx.stat(&format!("overflow: {} senders x {} messages offered to a stalled writer", k, per));
+				let lists_txt: Vec<String> = r.lists.iter().map(|l| hex_list(l)).collect();
+				cx.out.line(&format!("codec cover {} {} {} {}", r.ver, r.lists.len(), lists_txt.join(" "), hex(&r.stream)), &verdict);
+			}
+		}
+	}
+}
+
+// ---------------------------------------------------------------------------------------------------
+// increment 2: the handshake WRITE timeouts (HAND_WRITE_TIMEOUT / SHAKE_WRITE_TIMEOUT = 2 s) on the real code:
+// the socket's send path is filled up beforehand (non-blocking writes until WouldBlock, repeated until the
+// kernel takes nothing more) and the remote never reads, so the write of the Shake / the Hand cannot make
+// progress.  One-sided bounds only: the call must fail with a timeout, not before 2 s have passed.
+
+fn fill_send_path(s: &TcpStream) -> usize {
+	let _ = s.set_nonblocking(true);
+	let chunk = vec![0xEEu8; 1 << 16];
+	let mut total = 0usize;
+	let mut idle_rounds = 0;
+	let mut w = s;
+	while idle_rounds < 3 && total < (1 << 28) {
+		let mut progressed = false;
+		loop {
+			match w.write(&chunk) {
+				Ok(0) => break,
+				Ok(n) => {
+					total += n;
+					progressed = true;
+				}
+				Err(_) => break,
+			}
+		}
+		if progressed {
+			idle_rounds = 0;
+		} else {
+			idle_rounds += 1;
+		}
+		std::thread::sleep(Duration::from_millis(150));
+	}
+	let _ = s.set_nonblocking(false);
+	total
+}
+
+struct WtRes {
+	dir: &'static str,
+	stalled: bool,
+	res: String,
+	elapsed: Duration,
+	filled: usize,
+}
+
+fn wt_accept(stalled: bool, nonce: u64) -> Option<WtRes> {
+	let g = Hash::from_vec(&[7u8; 32]);
+	let listener = TcpListener::bind("127.0.0.1:0").ok()?;
+	let laddr = listener.local_addr().ok()?;
+	let mut client = TcpStream::connect(laddr).ok()?;
+	client.set_nodelay(true).ok()?;
+	let (mut server, _) = listener.accept().ok()?;
+	let filled = if stalled { fill_send_path(&server) } else { 0 };
+	let hand = Hand {
+		version: ProtocolVersion(1000),
+		capabilities: Capabilities::default(),
+		nonce,
+		genesis: g,
+		total_difficulty: Difficulty::from_num(5),
+		sender_addr: PeerAddr("127.0.0.1:3414".parse().unwrap()),
+		receiver_addr: PeerAddr(laddr),
+		user_agent: "verif/wtime".to_string(),
+	};
+	client.write_all(&wire(&Msg::new(Type::Hand, hand, ProtocolVersion(1)).unwrap())).ok()?;
+	let node = std::thread::spawn(move || {
+		global::set_local_chain_type(ChainTypes::AutomatedTesting);
+		let hs = Handshake::new(g, P2PConfig::default());
+		let t0 = Instant::now();
+		let r = hs.accept(Capabilities::default(), Difficulty::from_num(5), &mut server).map(|i| i.version.value()).map_err(|e| hs_err(&e));
+		(r, t0.elapsed(), server)
+	});
+	// the remote does not read while the node is in `accept`
+	let (r, elapsed, _server) = node.join().ok()?;
+	let res = match r {
+		Ok(v) => format!("ok {}", v),
+		Err(e) => format!("err {}", e),
+	};
+	drop(client);
+	Some(WtRes { dir: "accept", stalled, res, elapsed, filled })
+}
+
+fn wt_initiate(stalled: bool) -> Option<WtRes> {
+	let g = Hash::from_vec(&[7u8; 32]);
+	let listener = TcpListener::bind("127.0.0.1:0").ok()?;
+	let laddr = listener.local_addr().ok()?;
+	let node = std::thread::spawn(move || {
+		global::set_local_chain_type(ChainTypes::AutomatedTesting);
+		let hs = Handshake::new(g, P2PConfig::default());
+		let mut conn = TcpStream::connect(laddr).ok()?;
+		let filled = if stalled { fill_send_path(&conn) } else { 0 };
+		let t0 = Instant::now();
+		let r = hs
+			.initiate(Capabilities::default(), Difficulty::from_num(5), PeerAddr("127.0.0.1:3414".parse().unwrap()), &mut conn)
+			.map(|i| i.version.value())
+			.map_err(|e| hs_err(&e));
+		Some((r, t0.elapsed(), filled))
+	});
+	let (mut remote, _) = listener.accept().ok()?;
+	if !stalled {
+		// an ordinary responder: read the Hand, answer with a Shake
+		let _ = remote.set_read_timeout(Some(Duration::from_secs(60)));
+		let mut head = [0u8; 11];
+		remote.read_exact(&mut head).ok()?;
+		let mut l = [0u8; 8];
+		l.copy_from_slice(&head[3..11]);
+		let mut body = vec![0u8; (u64::from_be_bytes(l) as usize).min(1 << 16)];
+		remote.read_exact(&mut body).ok()?;
+		let shake = Shake { version: ProtocolVersion(1000), capabilities: Capabilities::default(), genesis: g, total_difficulty: Difficulty::from_num(5), user_agent: "verif/wtime".to_string() };
+		let _ = remote.write_all(&wire(&Msg::new(Type::Shake, shake, ProtocolVersion(1)).unwrap()));
+	}
+	let (r, elapsed, filled) = node.join().ok()??;
+	let res = match r {
+		Ok(v) => format!("ok {}", v),
+		Err(e) => format!("err {}", e),
+	};
+	drop(remote);
+	Some(WtRes { dir: "initiate", stalled, res, elapsed, filled })
+}
+
+pub fn write_timeouts(cx: &mut Ctx) {
+	let nonces: Vec<u64> = (0..2).map(|_| cx.rng.next()).collect();
+	type Job = Box<dyn FnOnce() -> Option<WtRes> + Send>;
+	let (n0, n1) = (nonces[0], nonces[1]);
+	let jobs: Vec<Job> = vec![
+		Box::new(move || wt_accept(true, n0)),
+		Box::new(move || wt_accept(false, n1)),
+		Box::new(|| wt_initiate(true)),
+		Box::new(|| wt_initiate(false)),
+	];
+	let handles: Vec<_> = jobs.into_iter().map(|j| std::thread::spawn(j)).collect();
+	for h in handles {
+		match h.join().ok().flatten() {
+			None => {
+				cx.fails += 1;
+				cx.out.raw("#ORACLE-FAIL C19 wtime: the delivery could not be set up");
+			}
+			Some(r) => {
+				if r.stalled && r.res.starts_with("ok") {
+					// the kernel found room for the ~100 bytes after all: no stall was provoked, nothing to compare
+					cx.stat(&format!("wtime: {} - the send path took the message although {} bytes were queued (no stall provoked)", r.dir, r.filled));
+					continue;
+				}
+				if r.stalled {
+					if r.res != "err Timeout" {
+						cx.fails += 1;
+						cx.out.raw(&format!("#ORACLE-FAIL C19 handshake write timeout: {} with a remote that never reads ({} bytes queued before) returned {}", r.dir, r.filled, r.res));
+					}
+					if r.elapsed < Duration::from_millis(1_950) {
+						cx.fails += 1;
+						cx.out.raw(&format!("#ORACLE-FAIL C19 handshake write timeout: {} gave up after {} ms, before the 2 s write timeout", r.dir, r.elapsed.as_millis()));
+					}
+				} else if !r.res.starts_with("ok") {
+					cx.fails += 1;
+					cx.out.raw(&format!("#ORACLE-FAIL C19 wtime control: {} against an ordinary remote returned {}", r.dir, r.res));
+				}
+				cx.stat(&format!("wtime: {} stalled={}", r.dir, r.stalled));
+				cx.out.line(&format!("codec wtime {} {}", r.dir, if r.stalled { 1 } else { 0 }), &r.res);
 			}
 		}
 	}
